@@ -195,6 +195,13 @@ def _(c):
     back = Orbit(np.asarray(res, dtype=float), res.date, "cartesian", res.frame, Kepler()).propagate(d0).copy(form="cartesian")
     c.ensure("inverse", bool(np.linalg.norm(np.asarray(back[:3], dtype=float) - r0) <= 1e-6 * scale))
     c.ensure("initial_untouched", bool(orb.form.name == form and orb.date == d0))
+    # the same orbit object changed in place between two propagations (a burn): the second answer is for the state as it is now
+    burn = Orbit(list(r0) + list(v0), d0, "cartesian", "EME2000", Kepler())
+    burn.propagate(d0 + timedelta(seconds=dt))
+    burn[3:] = np.asarray(v0) * 0.99
+    rb, vb = twobody.propagate(r0, np.asarray(v0) * 0.99, dt, mu)
+    resb = np.asarray(burn.propagate(d0 + timedelta(seconds=dt)).copy(form="cartesian"), dtype=float)
+    c.ensure("after_an_in_place_change", bool(np.linalg.norm(resb[:3] - rb) <= 1e-6 * max(np.linalg.norm(rb), np.linalg.norm(r0))))
     if e < 1:
         kep0 = orb.copy(form="keplerian_mean")
         kep1 = res.copy(form="keplerian_mean")
@@ -238,6 +245,19 @@ def _(c):
     for idx, name in ((3, "node"), (4, "perigee"), (5, "mean_anomaly")):
         d = (got[idx] - exp[idx - 3]) % (2 * math.pi)
         c.ensure(name, bool(min(d, 2 * math.pi - d) < 1e-6))
+    # the same orbit object made polar IN PLACE after a first propagation, and a second orbit handed to the propagator object the first one used: each drifts at
+    # the rates of its own current elements (a polar orbit: no node drift)
+    again = Orbit([a, e, i, O, w, M], d0, "keplerian_mean", "EME2000", J2())
+    again.propagate(target)
+    again.i = math.pi / 2
+    g2 = np.asarray(again.propagate(target).copy(form="keplerian_mean"), dtype=float)
+    dd = (g2[3] - O) % (2 * math.pi)
+    c.ensure("in_place_change_then_polar.no_node_drift", bool(min(dd, 2 * math.pi - dd) < 1e-9 and abs(g2[2] - math.pi / 2) < 1e-12))
+    shared = orb.propagator
+    other = Orbit([a * 1.07, e, math.pi / 2, O, w, M], d0, "keplerian_mean", "EME2000", shared)
+    g3 = np.asarray(other.propagate(target).copy(form="keplerian_mean"), dtype=float)
+    dd = (g3[3] - O) % (2 * math.pi)
+    c.ensure("second_orbit_same_propagator.no_node_drift", bool(min(dd, 2 * math.pi - dd) < 1e-9))
     if abs(i - math.pi / 2) < 1e-12:
         d = (got[3] - O) % (2 * math.pi)
         c.ensure("polar.no_node_drift", bool(min(d, 2 * math.pi - d) < 1e-9))
